@@ -254,6 +254,29 @@ func RunSession(s Session) mon.Result {
 					oi, o.API, o.Stop, o.Strip, s.DL, o.OLGiven, o.OL, marks(o), v.detail) + fmt.Sprintf(" [option order %v: %s; repeat %q; long %q]", names, OptShape(names), o.Repeat, o.Long),
 				Events: tail(conn.Log(), 60), NonTrivial: true, Obs: obs}
 		}
+		if cerr != nil && Oversize(o) && !errors.Is(cerr, util.ErrTimeoutError) {
+			// a file line the loader cannot hold: an error is acceptable iff no command of the file
+			// reached the device (no responses were returned, so nothing may have been sent)
+			var stray []string
+			pending := ""
+			conn.Do(func() {
+				for _, l := range dev.Lines[base:] {
+					if _, isCmd := m[l.Line]; isCmd {
+						stray = append(stray, clip(l.Line))
+					}
+				}
+				pending = dev.InputLine()
+			})
+			if len(stray) > 0 || pending != "" {
+				return bad(verdict{"c13/error-after-commands-sent:api=" + o.API + ":file-line-too-long",
+					fmt.Sprintf("call returned error %v and no responses, but the device received %d command(s) %q (pending input %q)", cerr, len(stray), stray, clip(pending))})
+			}
+			obs["operations"]++
+			obs["api_"+o.API]++
+			obs["fromfile_oversize_line_rejected_with_error_nothing_sent"]++
+			tag("fromfile_oversize=error:%s", errClass(cerr))
+			continue
+		}
 		if cerr != nil {
 			if errors.Is(cerr, util.ErrTimeoutError) && conn.Delivered() < len(conn.Stream()) {
 				return mon.Result{Verdict: mon.Inconclusive, Detail: fmt.Sprintf("operation %d timed out with undelivered device output (load): %v", oi, cerr), Obs: obs}
@@ -270,6 +293,10 @@ func RunSession(s Session) mon.Result {
 		})
 		if v := judge(&s, o, out, cmds, refs, fails, sent, inForce, lines, pending); v != nil {
 			return bad(*v)
+		}
+		if Oversize(o) {
+			obs["fromfile_oversize_line_call_succeeded_all_lines_sent"]++
+			tag("fromfile_oversize=sent")
 		}
 		if unexpected > 0 {
 			return bad(verdict{"c13/harness:unexpected-line", "the device received a line that is no command of the operation"})
@@ -574,7 +601,11 @@ func judge(s *Session, o *Op, out outcome, cmds, refs []string, fails []bool, se
 			// by construction of sent none of the commands before index sent-1 failed
 			k = "c13/stop-on-failed:stopped-before-first-failure:api=" + o.API
 		}
-		return &verdict{k, fmt.Sprintf("device received %d of the %d commands it had to receive (%d in the list); first missing %q", len(got), sent, len(cmds), cmds[len(got)])}
+		if Oversize(o) && len(got) < len(cmds) && len(cmds[len(got)]) >= oversizeMin {
+			// nil error, and the log stops right in front of the line the loader cannot hold
+			k += ":file-line-too-long-silently-dropped"
+		}
+		return &verdict{k, fmt.Sprintf("device received %d of the %d commands it had to receive (%d in the list); first missing %q (%d bytes)", len(got), sent, len(cmds), clip(cmds[len(got)]), len(cmds[len(got)]))}
 	}
 	if pending != "" {
 		return &verdict{"c13/partial-line-transmitted:api=" + o.API, fmt.Sprintf("device holds an unterminated input line %q after the operation", pending)}
@@ -778,7 +809,7 @@ func init() {
 			"About a third of the lists of length >=2 carry a repetition overlay: a command copied to 1-3 other positions (adjacent or apart) with byte-identical output " +
 			"(identical failed members; the aggregate is compared by position and pointer identity, not by value), or as controls the same text with differing outputs / differing texts with identical output. " +
 			"About 1/8 of the from-file operations (1/40 of the others, as a control) contain one command line of 4097-65000 bytes (boundary 4097-4099, two, three/four and many 4096-byte buffers; " +
-			"short ones only where reads are tiny), which must reach the device as one line. " +
+			"short ones only where reads are tiny), which must reach the device as one line; 1/100 of the from-file operations have a line of 65536-70000 bytes (error with nothing sent, or everything sent). " +
 			"Decoys: unlisted string, driver-level string while an operation-level list overrides it, string of another operation's list, string only in the echoed command, " +
 			"case variant, string broken by a newline, proper prefix. Placement first/middle/last line x start/mid/end/whole line, optionally broken by an escape sequence or CR, several per output. " +
 			"Non-trivial = a session in which at least one returned member failed per the reference (a failure string in force is present in some output). Distinct = distinct descriptor hash.",
@@ -789,7 +820,8 @@ func init() {
 			"every command ends in a byte from a reserved set that occurs nowhere else (commands, outputs, prompts, failure strings)",
 			"failure strings are non-empty; an empty operation-level list (nil or empty slice) falls back to the driver-level list (pinned behaviour)",
 			"escape sequences only from a fixed SGR/erase family and only when the transport read size can hold them; outputs shorter than the prompt search depth",
-			"command-file lines stay below 65536 bytes (bufio.Scanner's token limit: the pinned loader silently drops such a line and all following ones; reported to the coordinator, not generated); the echo of a long command fits the channel's window max(search depth, 2*len(command))",
+			"the echo of a long command fits the channel's window max(search depth, 2*len(command))",
+			"a from-file call whose file has a line of 65536-70000 bytes (beyond the loader's scanner) may return an error instead of sending, provided no command of the file reached the device; a nil error obliges it to every line like any other call",
 			"lines the device receives that are empty (prompt look-ups) or the privilege commands are not counted as commands",
 		},
 		Exhaustive:  func(string) bool { return false },
